@@ -92,13 +92,18 @@ package amp
 //
 // decodeToWriter: the tokenizer's buffer is bounded (32 KiB) before the first token is requested; only text inside a
 // pre element reaches the base64 layer; nested, stray and unterminated pre elements are errors.
+//@ ghost var lastTok int
 //@ func decodeToWriter(w io.Writer, r io.Reader) (total int64, err error)
 //@   props C10
 //@   flag nooverflow (fewer than 2^63 bytes are decoded)
 //@   requires w != nil && r != nil
 //@   at call SetMaxBuf assert {buffer-bound-is-32KiB} arg1 == 32*1024 && calls(Next) == 0
 //@   at call Next assert {bounded-before-the-first-token} calls(SetMaxBuf) == 1
-//@   loop 1 invariant calls(SetMaxBuf) == 1
+//   The tokenizer's error is sticky (every later Next reports it again): an error token - end of input, an oversized
+//   token, a read error, inside or outside a pre element - always ENDS the decoder. The loop is never re-entered after
+//   the error has been looked at (else the decoder spins and its reader hangs).
+//@   after call Next ghost lastTok = ret0
+//@   loop 1 invariant {an-error-token-ends-the-decoder} calls(SetMaxBuf) == 1 && (calls(Next) == 0 || lastTok != html.ErrorToken)
 //@   loop 2 invariant calls(SetMaxBuf) == 1 && active
 //@   at call Write assert {only-text-inside-pre-is-decoded} active
 //
